@@ -80,7 +80,37 @@ Section Feasible.
 
   (* the constraint sets, on a matrix given by its rows *)
   Definition all_entries (Q : R -> Prop) (y : mat) : Prop := Forall Q (concat y).
-  Definition transposed_columns (Q : list R -> Prop) (y : mat) : Prop := exists Z, y = cols_of Rops Z /\ Forall Q Z.
+  (* y is the transpose of the RECTANGULAR list of columns Z (every column has as many entries as y has rows - cols_of would
+     otherwise pad / truncate), and every column satisfies Q *)
+  Definition transposed_columns (Q : list R -> Prop) (y : mat) : Prop :=
+    exists Z, y = cols_of Rops Z /\ Forall (fun z => length z = length y) Z /\ Forall Q Z.
+
+  Lemma cols_len (x : mat) c : In c (cols_of Rops x) -> length c = length x.
+  Proof.
+    unfold cols_of. destruct x as [|r rs]; [intros []|]. rewrite in_map_iff. intros (j & <- & _). apply map_length.
+  Qed.
+
+  (* a column-wise operator that preserves lengths yields a rectangular transpose *)
+  Lemma colwise_columns (f : list R -> list R) (Q : list R -> Prop) x :
+    (forall c, length (f c) = length c) -> (forall c, In c (cols_of Rops x) -> Q (f c)) ->
+    transposed_columns Q (colwise Rops f x).
+  Proof.
+    intros Lf HQ. unfold colwise. exists (map f (cols_of Rops x)). split; [reflexivity|].
+    assert (Lz : forall z, In z (map f (cols_of Rops x)) -> length z = length x).
+    { intros z Hz. apply in_map_iff in Hz. destruct Hz as (c & <- & Hc). rewrite Lf. apply cols_len. exact Hc. }
+    split.
+    - apply Forall_forall. intros z Hz. rewrite (Lz z Hz).
+      destruct (map f (cols_of Rops x)) as [|z0 Zr] eqn:EZ; [contradiction|].
+      unfold cols_of. rewrite map_length, seq_length. symmetry. apply Lz. left; reflexivity.
+    - apply Forall_forall. intros z Hz. apply in_map_iff in Hz. destruct Hz as (c & <- & Hc). apply HQ. exact Hc.
+  Qed.
+
+  Lemma simplex_prox_length p v : length (simplex_prox Rops p v) = length v.
+  Proof. unfold simplex_prox. apply map_length. Qed.
+  Lemma soft_sparsity_prox_length p v : length (soft_sparsity_prox Rops p v) = length v.
+  Proof.
+    unfold soft_sparsity_prox. rewrite map_length, combine_length, simplex_prox_length, map_length. apply Nat.min_id.
+  Qed.
 
   Lemma nonneg_range p x : all_entries (fun a => 0 <= a) (op_c12 KNonNeg p x).
   Proof.
@@ -130,24 +160,20 @@ Section Feasible.
   Lemma simplex_range p x : 0 < toR p ->
     transposed_columns (fun z => Forall (fun a => 0 <= a) z /\ lsum Rops z = toR p) (op_c12 KSimplex p x).
   Proof.
-    intros Hp. simpl. unfold colwise. eexists. split; [reflexivity|].
-    apply Forall_forall. intros z Hz. apply in_map_iff in Hz. destruct Hz as (c & <- & Hc).
-    apply simplex_feasible; [exact Hp | eapply cols_nonempty; eauto].
+    intros Hp. simpl. apply colwise_columns; [intros c; apply simplex_prox_length|].
+    intros c Hc. apply simplex_feasible; [exact Hp | eapply cols_nonempty; eauto].
   Qed.
 
   Lemma monotone_range p x : transposed_columns ndec (op_c12 KMonotone p x).
   Proof.
-    simpl. unfold colwise. eexists. split; [reflexivity|].
-    apply Forall_forall. intros z Hz. apply in_map_iff in Hz. destruct Hz as (c & <- & Hc).
-    apply monotone_feasible.
+    simpl. apply colwise_columns; [intros c; apply monotone_feasible | intros c _; apply monotone_feasible].
   Qed.
 
   Lemma soft_sparsity_range p x : 0 < toR p ->
     transposed_columns (fun z => l1n Rops z <= toR p) (op_c12 KSoftSparsity p x).
   Proof.
-    intros Hp. simpl. unfold colwise. eexists. split; [reflexivity|].
-    apply Forall_forall. intros z Hz. apply in_map_iff in Hz. destruct Hz as (c & <- & Hc).
-    apply soft_sparsity_feasible; [exact Hp | eapply cols_nonempty; eauto].
+    intros Hp. simpl. apply colwise_columns; [intros c; apply soft_sparsity_prox_length|].
+    intros c Hc. apply soft_sparsity_feasible; [exact Hp | eapply cols_nonempty; eauto].
   Qed.
 
   (* max-normalisation: max |entry| = 1 unless the operator's input is zero (0/0 in the code) *)
